@@ -45,11 +45,24 @@ class Injector:
                         raise Crash()
                 return os.replace(a, b)
         self._os = T.os; T.os = OS()
+        class SH:
+            def __getattr__(s, name): return getattr(shutil, name)
+            def copy(s, a, b):
+                idx = inj.n; inj.n += 1; inj.log.append(("copy", os.path.basename(b)))
+                if inj.crash_at is not None:
+                    kk, ph = inj.crash_at
+                    if (ph == "pre" and idx == kk) or (ph == "post" and idx == kk + 1):
+                        raise Crash()
+                    if ph == "mid" and idx == kk:
+                        real_open(b, "w").close(); raise Crash()       # destination created, nothing copied yet
+                return shutil.copy(a, b)
+        self._sh = getattr(T, "shutil", None); T.shutil = SH()
 
     def remove(self):
         try: del self.T.open
         except AttributeError: pass
         self.T.os = self._os
+        if self._sh is not None: self.T.shutil = self._sh
 
 
 def record(d, pitch, snaps, events_every, crash_at):
@@ -137,6 +150,7 @@ def run(tier, seed):
                     if all(o is not None for o in obs2):
                         cases.append(tup(nat(pitch), lst([nat(i) for i in range(n)]), lst([lst([nat(i) for i in o]) for o in obs2])))
                         meta.append(dict(pitch=pitch, nsnap=n, events_every=ev, loads_after_each_op=obs2))
+    bad += clone_crash_probe(rng, tmproot, res, tier)
     bad += restart_probe_real(rng, tmproot, res)
     shutil.rmtree(tmproot, ignore_errors=True)
     failing, errors = run_case_check("C15", PRELUDE, "nat * list nat * list (list nat)", "chk15", cases, per_file=50)
@@ -152,9 +166,63 @@ def run(tier, seed):
         res.violation("implementation differs from Model/Crash.v (theorems no longer cover the code)",
                       dict(kind="correspondence", correspondence="Run/R15.chk15: load_log after each completed file operation vs Crash.visited/load", failing_inputs=corr, no_failing_input_found=True))
     return finish(res, thm,
-                  rule="for each page size and snapshot count: every file operation of the trace (open w/a/x, os.replace) after initialisation is crashed before it, after the open but before any write, and after it completes; "
-                       "the directory is then loaded with load_log and read back; non-trivial = crash after at least one completed snapshot",
+                  rule="for each page size and snapshot count: every file operation of the trace (open w/a/x, os.replace, shutil.copy) after initialisation is crashed before it, after the open but before any write, and after it completes; "
+                       "the directory is then loaded with load_log and read back; YAMLTrace.clone() of multi-page traces crashed at each of its file operations (original complete, clone loadable as a prefix); non-trivial = crash after at least one completed snapshot",
                   assumptions=["a crash is modelled as an exception raised at the file operation (no torn writes inside one write call)", "os.replace is atomic"])
+
+
+def clone_crash_probe(rng, tmproot, res, tier):
+    """the even-sampling spawn path: YAMLTrace.clone() crashed at every one of its file operations.  The original must stay complete;
+    the clone, once its main log names any page, must load and hold a prefix of the original's snapshots."""
+    from mudslide.tracer import YAMLTrace, load_log
+    bad = []
+    for pitch, n in ([(1, 3), (2, 5), (3, 7)] if tier == "quick" else [(1, 3), (2, 5), (3, 7), (4, 4), (2, 8), (8, 3), (3, 9)]):
+        snaps = [p14.snap(i, rng) for i in range(n)]
+        def build(d):
+            y = YAMLTrace(base_name="ta", location=d, log_pitch=pitch)
+            for i, s_ in enumerate(snaps):
+                y.collect(s_)
+                if i % 2 == 0: y.record_event("hop", {"id": i, "event": "hop", "time": 0.0, "from": 0, "to": 1, "zeta": 0.5, "prob": 0.1})
+            return y
+        d0 = os.path.join(tmproot, "cl_dry"); shutil.rmtree(d0, ignore_errors=True); os.makedirs(d0)
+        y0 = build(d0); inj0 = Injector(None); inj0.install()
+        try: y0.clone()
+        finally: inj0.remove()
+        nops = inj0.n; oplog = list(inj0.log)
+        for k in range(nops + 1):
+            for ph in ("pre", "mid", "post"):
+                if k == nops and ph != "pre": continue
+                d = os.path.join(tmproot, "cl_%d_%d_%d_%s" % (pitch, n, k, ph)); os.makedirs(d)
+                y = build(d); inj = Injector((k, ph)); inj.install()
+                try:
+                    y.clone()
+                except Crash:
+                    pass
+                finally:
+                    inj.remove()
+                info = dict(operation="clone", pitch=pitch, nsnap=n, crash_op=k, phase=ph, op=list(oplog[k]) if k < nops else None, files=sorted(os.listdir(d)))
+                res.count("clone-crash/" + ph); res.case(("clonecrash", pitch, n, k, ph), True)
+                try:
+                    ids, _ = load_ids(d)
+                    if ids != list(range(n)):
+                        bad.append(dict(failed="a crash while cloning leaves the original trace complete (loaded %r of %d)" % (ids, n), case=info))
+                except Exception as ex:
+                    bad.append(dict(failed="original trace not loadable after a crash while cloning (%s: %s)" % (type(ex).__name__, ex), case=info))
+                cm = os.path.join(d, "ta-1.yaml")
+                if os.path.exists(cm) and os.path.getsize(cm) > 0:
+                    try:
+                        cl = load_log(cm)
+                        # a clone whose pages have not been copied yet is an empty trace (reading an empty trace is outside the property, as for C14)
+                        cids = [int(cl[i]["id"]) for i in range(len(cl))]
+                        if len(cl) > 0 and [int(s_["id"]) for s_ in cl] != cids:
+                            cids = None
+                        if cids is None or cids != list(range(len(cids))) or len(cids) > n:
+                            bad.append(dict(failed="a clone interrupted by a crash holds a prefix of the original's snapshots (loaded %r, len() says %d)" % (cids, len(cl)), case=info))
+                        res.count("clone-crash/clone-loadable")
+                    except Exception as ex:
+                        bad.append(dict(failed="the files of a clone interrupted by a crash can still be loaded (%s: %s)" % (type(ex).__name__, ex), case=info))
+                shutil.rmtree(d, ignore_errors=True)
+    return bad
 
 
 def restart_probe_real(rng, tmproot, res):
